@@ -77,7 +77,7 @@ PROPS = {
                 spec=lambda l: False, tags=['C20']),
 }
 
-LINE_RE = re.compile(r'^(TIE|POLLS|SPEC|PROP|IMPURE|SKIP|SUMMARY|STAT)\b(.*)$')
+LINE_RE = re.compile(r'^(TIE|POLLS|THM|SPEC|PROP|IMPURE|SKIP|SUMMARY|STAT)\b(.*)$')
 
 
 def sh(cmd, **kw):
@@ -110,7 +110,7 @@ def parse_kv(rest):
 
 
 def parse_report(path):
-    lines = {'TIE': [], 'POLLS': [], 'SPEC': [], 'PROP': [], 'IMPURE': [], 'SKIP': [], 'STAT': []}
+    lines = {'TIE': [], 'POLLS': [], 'THM': [], 'SPEC': [], 'PROP': [], 'IMPURE': [], 'SKIP': [], 'STAT': []}
     summary = {}
     with open(path, errors='replace') as f:
         for raw in f:
@@ -127,7 +127,7 @@ def parse_report(path):
             d = parse_kv(rest)
             pos = d.pop('_pos')
             d['kind'] = kind
-            if kind in ('TIE', 'POLLS', 'SPEC'):
+            if kind in ('TIE', 'POLLS', 'THM', 'SPEC'):
                 d['id'], d['family'], d['entry'] = (pos + [None] * 3)[:3]
                 d['silent'] = d.get('silent') == 'true'
             elif kind == 'PROP':
@@ -439,7 +439,7 @@ def generic_check(prop, tier, seed, replay, t_start, log, extra_oracle=None):
             for k, v in summary.items():
                 totals[k] = totals.get(k, 0) + v
             fam_counts[fam.split('/')[-1]] = summary.get('cases', 0)
-            for l in lines['TIE'] + lines['POLLS']:
+            for l in lines['TIE'] + lines['POLLS'] + lines['THM']:
                 l['_fam'] = fam
                 ties.append(l)
             for l in lines['SPEC']:
@@ -499,7 +499,7 @@ def generic_check(prop, tier, seed, replay, t_start, log, extra_oracle=None):
                 l['_fam'] = fam + '#search'
                 if l.get('tag') in cfg['tags']:
                     propbad.append(l)
-            for l in lines['TIE'] + lines['POLLS']:
+            for l in lines['TIE'] + lines['POLLS'] + lines['THM']:
                 l['_fam'] = fam + '#search'
                 ties.append(l)
             if has_violation():
@@ -549,7 +549,7 @@ def generic_check(prop, tier, seed, replay, t_start, log, extra_oracle=None):
         if ties:
             t = ties[0]
             case = case_inputs(sexps.get(t['_fam'], ''), [t.get('id')]).get(str(t.get('id')), '')
-            what.append({'correspondence': 'model/Exec.v (extracted) vs the implementation: %d disagreements' % len(ties),
+            what.append({'correspondence': ('model/Exec.v (extracted) vs the implementation' if t.get('kind') != 'THM' else 'instance of theorem %s (proofs/RefineClosed.v) on the extracted model and specification' % t.get('theorem')) + ': %d disagreements' % len(ties),
                          'first': {k: t.get(k) for k in ('kind', 'entry', 'silent', 'k', 'impl', 'model', 'text', 'family', 'id')},
                          'input': replay_input(case)})
         replay_path = write_replay(prop, 'unchecked-obligation', {
@@ -572,9 +572,12 @@ def generic_check(prop, tier, seed, replay, t_start, log, extra_oracle=None):
     # ---- evidence
     evals = totals.get('comparisons', 0) + totals.get('spec_comparisons', 0)
     distinct = 0
+    thm = {}
     for s in stats:
         if s.get('name') == 'distinct_nontrivial':
             distinct += int(s.get('n', 0))
+        elif s.get('name', '').startswith('thm_'):
+            thm[s['name']] = thm.get(s['name'], 0) + int(s.get('n', 0))
     ev = {
         'property_id': prop, 'tier': tier, 'seed': seed, 'level': 'proof',
         'coverage': {
@@ -604,6 +607,8 @@ def generic_check(prop, tier, seed, replay, t_start, log, extra_oracle=None):
             'known_findings_seen': sorted(seen_known),
             'known_findings_not_reproduced': not_reproduced,
             'oracle_misses': totals.get('oracle_miss', 0),
+            'theorem_instances': dict(thm, note='refinement theorems (proofs/RefineClosed.v *_is_trace) re-checked on the extracted terms for every generated '
+                                                'case that satisfies their decidable hypotheses (thm_hyp_ok of thm_cases); thm_failures must be 0'),
             'explanation': 'P: Coq development rebuilt and Print Assumptions audited; T: extracted model vs implementation on projected observables; '
                            'S: extracted specification and property relations as oracle on the implementation\'s outputs',
         },
